@@ -20,6 +20,7 @@ LEVEL = "exploration"
 QUICK_JOBS = 2400
 THOROUGH_JOBS = 100000
 WALL_CAP = {"quick": 240.0, "thorough": 3300.0}
+STATE_MEASURE = "distinct (route, action, set of operation kinds, set of sections edited, outcome class of the reference model) combinations"
 
 RULE = ("one case = (generated model, sequence of 1-8 override/remove/add operations on any section and key - repeated keys, "
         "whitespace variants of existing keys, missing keys/sections, target changes, removal of a section's last key, values "
@@ -774,6 +775,9 @@ def run_job(job):
         for f in op_features(sc):
             if f != "two-ops-same-section":
                 bump("probe:" + f)
+        bump("state:%s|%s|%s|%s|%s" % (sc["route"], sc["action"], "+".join(sorted(set(o["kind"] for o in sc["ops"]))),
+                                     ",".join(sorted(set(o["section"].split(":")[0] for o in sc["ops"])))[:60],
+                                     ("rejected:" + _rej_kind(ref["rejected"])) if ref.get("rejected") else "accepted"))
         if ref.get("rejected"):
             bump("probe:model-rejects-operation")
             bump("rejected:" + _rej_kind(ref["rejected"]))
